@@ -135,3 +135,22 @@ package kvm
 //@   requires c != nil
 //@   modifies c.analysis
 //@   ensures r ==> udest < len(c.Code) && c.Code[udest] == BEGINSUB
+
+// ---------------------------------------------------------------- C10: logs carry a private copy of memory
+// A LOG instruction hands the state a copy of the memory range: later writes to the interpreter's
+// memory must not change data already logged.
+//@ func (m *Memory) GetCopy(offset, size int64) (cpy []byte)
+//@   for C10
+//@   ensures [copyIsPrivate] len(cpy) == 0 || fresh(cpy)
+//@   ensures [copyLength] (size != 0 && len(m.store) > offset) ==> len(cpy) == size
+//@ func (m *Memory) GetPtr(offset, size int64) (r []byte)
+//@   for C10
+//@   ensures [aliasesMemory] len(r) == 0 || sameArray(r, m.store)
+//@ trusted func (s StateDB) AddLog(l *types.Log)
+//@ func makeLog$1(pc *uint64, kvm *KVM, callContext *ScopeContext) (ret []byte, err error)
+//@   for C10
+//@   requires kvm != nil && kvm.BlockHeight != nil
+//@   modifies *
+//@   loop 1:
+//@     invariant kvm.BlockHeight != nil
+//@   atcall StateDB.AddLog requires [dataIsPrivateCopy] l != nil && (len(l.Data) == 0 || fresh(l.Data))
